@@ -103,7 +103,11 @@ def check(ctx):
         r.ok(text if counts[kind] <= 2 else None)
 
     def exkey(fid):
-        return re.sub(r"\{closure#\d+\}", "{closure}", fid)
+        # a reviewed site belongs to its enclosing named function: whether the statement sits in the function body, in a closure passed to an
+        # iterator adapter or in a nested closure is a matter of style
+        return re.sub(r"(::\{closure(#\d+)?\})+$", "", fid)
+    global EX
+    EX = {(re.sub(r"(::\{closure(#\d+)?\})+$", "", k0), k1): v for (k0, k1), v in EX.items()}
 
     for fid in sorted(reach):
         f = P.fns[fid]
